@@ -179,6 +179,8 @@ FIXED_LIB = {
     "show": ("seq", [T("["), ("param", "1", None), T("]")]),
     "kshow": ("seq", [T("<"), ("param", "k", T("d")), T("|"), ("param", "n  m", T("?")), T(">")]),
     "two": ("seq", [("param", "2", T("-")), T("/"), ("param", "1", T("-"))]),
+    # list / table markers that are NOT at the start of the expansion must not attract the automatic newline
+    "tbl": T("t {| c |} ; x : y # z * w"), "tbl0": T("{| c |}"), "wrap": ("seq", [T("<i>"), ("param", "1", T("")), T("</i>")]),
 }
 FIXED_PAGES = []
 for inner in ("pad", "nl", "li"):
@@ -187,6 +189,12 @@ for inner in ("pad", "nl", "li"):
                     ("call", "kshow", [("k", c)]), ("call", "kshow", [("n m", c), ("k", T(" v "))]),
                     ("call", "kshow", [("n\tm", c)]), ("call", "two", [("2", c), ("1", T(" a "))]),
                     ("call", "two", [(None, T(" p ")), (None, c)]), ("call", "two", [("1", c), (None, T("q"))])]
+for inner in ("tbl", "tbl0", "li"):
+    c = ("call", inner, [])
+    FIXED_PAGES += [c, ("seq", [T("a"), c]), ("call", "wrap", [(None, c)]), ("call", "show", [("1", c)]),
+                    ("if", T("x"), ("seq", [T("p "), c]), T("e")), ("if", T("x"), c, T("e")),
+                    ("ifeq", T("x"), T("x"), ("seq", [T("q"), c]), T("d")),
+                    ("switch", T("x"), [("x", ("seq", [T("s"), c]))], None)]
 nlib = 40 if tier == "quick" else 300
 npage = 40 if tier == "quick" else 80
 for li in range(-1, nlib):
@@ -264,6 +272,14 @@ def balanced(seq):
 
 
 ctx = new_ctx({})
+for body in ["a<onlyinclude>x</onlyinclude>b<onlyinclude>y</onlyinclude>c", "<onlyinclude>1</onlyinclude><onlyinclude>2</onlyinclude>"
+             "<onlyinclude>3</onlyinclude>", "p<onlyinclude/>q<onlyinclude>r</onlyinclude>", "<noinclude>n</noinclude><onlyinclude>x"
+             "</onlyinclude>m<!-- c --><onlyinclude>y</onlyinclude>", "<includeonly>i</includeonly>a<includeonly>j</includeonly>"]:
+    ctx.add_page("Template:z", 10, body)
+    got = ctx.get_page("Template:z", 10).body
+    evaluations += 1
+    if got != ref_body(body):
+        fail("core:Wtp._template_to_body#includable-part", f"body {body!r}: stored {got!r} want {ref_body(body)!r}", {"body": body})
 maxl = 4 if tier == "quick" else 6
 count = 0
 for n in range(1, maxl + 1):
